@@ -26,7 +26,7 @@ Definition descr_zero (d : pystr) : bool := match descr_order d with Some 0%nat 
 (** (repaired by fix 1a5deb0; excuses nothing any more) former class 1: a descriptor that is NOT the first of its atom has an order other than 1:
     format_bonding ASSIGNS the symbol (`bond_str = order_symb`), dropping everything written before *)
 Definition cls_order_not_first (L : list pystr) : bool := existsb (fun d => negb (descr_single d)) (tl L).
-(** class 2: a descriptor of order 0: written `.[$]`, which strip_bonding_descriptors reads as order 1
+(** (repaired by the reader fix 0d0f450; excuses nothing any more) former class 2: a descriptor of order 0: written `.[$]`, which strip_bonding_descriptors reads as order 1
     (`elif current_order:` is false for 0) *)
 Definition cls_order_zero (L : list pystr) : bool := existsb descr_zero L.
 
@@ -43,10 +43,9 @@ Definition cls_coarse_renamed (g : graph) : bool :=
   existsb (fun n => match aget (S "atomname") (na n), aget (S "fragname") (na n) with
                     | Some x, Some y => negb (pyval_eqb x y)
                     | _, _ => false end) g.
-(** classes of one fragment entry; 0 = none (1, 4, 5 were repaired: 1a5deb0, be4ff6e, dd9a0c2); 6 = the open C07 class on a coarse fragment graph *)
+(** classes of one fragment entry; 0 = none (1, 2, 4, 5 were repaired: 1a5deb0, 0d0f450, be4ff6e, dd9a0c2); 6 = the open C07 class on a coarse fragment graph *)
 Definition class_entry (smiles_format : bool) (g : graph) (tr : list (Z * Z)) : nat :=
-  if existsb (fun n => cls_order_zero (node_bonding (na n))) g then 2%nat
-  else if smiles_format then 0%nat
+  if smiles_format then 0%nat
   else if cls_coarse_renamed g then 3%nat
   else if cls_pct_marker g tr then 6%nat
   else 0%nat.
